@@ -273,6 +273,11 @@ impl ControlFlowGraph {
                     self.graph.insert_edge(edge)?;
                 }
 
+                // the merged block now ends where its successor ended
+                if self.exit == Some(successor_index) {
+                    self.exit = Some(merge_index);
+                }
+
                 // remove the block we just merged
                 self.graph.remove_vertex(successor_index)?;
             }
